@@ -1,11 +1,31 @@
-//! Bounded conformance checks of real riti functions against executable forms of the
-//! contracts (DESIGN.md 4.3).  Each check enumerates a stated finite domain completely and
-//! returns {"check","bound","cases","nontrivial","failures":[...],"samples":[...]}.
+//! Bounded conformance checks of the real riti code against executable forms of the contracts
+//! (DESIGN.md 4.3).  They are the *bounded stand-ins*: every check enumerates a stated finite
+//! domain completely (no randomness unless a seed is stated) and returns
+//! {"check","bound","cases","nontrivial","failures":[{clause, history|input, observed, expected}],"samples"}.
+//! A failure is a concrete input that can be replayed with `verif_driver history`.
 use serde_json::{json, Value};
+
+use crate::context::RitiContext;
+use crate::suggestion::Suggestion;
+use crate::verif_driver::{make_config, show};
 
 pub(crate) fn run(name: &str, bound: usize, shard: usize, nshards: usize) -> Value {
     match name {
         "reph" => reph::run(bound, shard, nshards),
+        "split" => split::run(bound, shard, nshards),
+        "backspace_step" => misc::backspace_step(bound),
+        "layout_values" => misc::layout_values(),
+        "phonetic_api" => api::phonetic(bound, shard, nshards),
+        "fixed_api" => api::fixed(bound, shard, nshards),
+        "history_independence" => api::history_independence(bound),
+        "learn_recall" => api::learn_recall(bound),
+        "user_files" => api::user_files(bound),
+        "update_engine" => api::update_engine(bound),
+        "smart_quote" => api::smart_quote(bound),
+        "ansi" => api::ansi(bound),
+        "emoji_tables" => api::emoji_tables(bound, shard, nshards),
+        "suffix_forms" => api::suffix_forms(bound),
+        "fixed_rules" => rules::run(bound, shard, nshards),
         _ => json!({"check": name, "error": "unknown check"}),
     }
 }
@@ -17,7 +37,7 @@ pub(crate) fn for_all_strings(alpha: &[char], n: usize, shard: usize, nshards: u
     let mut s = String::new();
     for len in 0..=n {
         let mut digits = vec![0usize; len];
-        loop {
+        'outer: loop {
             if idx % nshards as u64 == shard as u64 {
                 s.clear();
                 for &d in &digits { s.push(alpha[d]); }
@@ -25,22 +45,41 @@ pub(crate) fn for_all_strings(alpha: &[char], n: usize, shard: usize, nshards: u
                 count += 1;
             }
             idx += 1;
-            // increment
             let mut k = len;
             loop {
-                if k == 0 { break; }
+                if k == 0 { break 'outer; }
                 k -= 1;
                 digits[k] += 1;
                 if digits[k] < alpha.len() { break; }
                 digits[k] = 0;
-                if k == 0 { k = usize::MAX; break; }
             }
-            if len == 0 || k == usize::MAX { break; }
         }
     }
     count
 }
 
+pub(crate) struct Out {
+    pub name: &'static str,
+    pub bound: usize,
+    pub cases: u64,
+    pub nontrivial: u64,
+    pub failures: Vec<Value>,
+    pub samples: Vec<Value>,
+    pub domain: String,
+}
+impl Out {
+    pub fn new(name: &'static str, bound: usize, domain: &str) -> Self {
+        Out { name, bound, cases: 0, nontrivial: 0, failures: Vec::new(), samples: Vec::new(), domain: domain.to_string() }
+    }
+    pub fn fail(&mut self, v: Value) { if self.failures.len() < 25 { self.failures.push(v); } }
+    pub fn sample(&mut self, v: Value) { if self.samples.len() < 4 { self.samples.push(v); } }
+    pub fn done(self) -> Value {
+        json!({"check": self.name, "bound": self.bound, "cases": self.cases, "nontrivial": self.nontrivial,
+               "failures": self.failures, "samples": self.samples, "domain": self.domain})
+    }
+}
+
+// ---------------------------------------------------------------------------------------------
 mod reph {
     use super::*;
     use crate::fixed::method::FixedMethod;
@@ -63,18 +102,17 @@ mod reph {
         let s = conj_start(p, e);
         if s < e { s } else { n }
     }
-    /// minimal orthographic well-formedness used by the placement clause: every hasanta follows a consonant
     fn wf(p: &[char]) -> bool {
         (0..p.len()).all(|i| p[i] != H || (i > 0 && p[i - 1].is_pure_consonant()))
     }
 
     pub(crate) fn run(bound: usize, shard: usize, nshards: usize) -> Value {
-        // one representative per class the scan distinguishes (+ two consonants, both joiners)
         let alpha = ['ক', 'র', H, 'া', 'ই', CH, '\u{200D}', '\u{200C}', '।', 'ং'];
-        let mut failures = Vec::new();
+        let mut o = Out::new("reph", bound, "all strings of length <= bound over {ক, র, hasanta, া, ই, chandrabindu, ZWJ, ZWNJ, ।, ং}");
+        let mut fails = Vec::new();
         let mut nontrivial = 0u64;
         let mut samples = Vec::new();
-        let cases = for_all_strings(&alpha, bound, shard, nshards, |s| {
+        o.cases = for_all_strings(&alpha, bound, shard, nshards, |s| {
             let p: Vec<char> = s.chars().collect();
             let r = std::panic::catch_unwind(|| {
                 let mut m = FixedMethod::verif_with_buffer(s);
@@ -86,22 +124,858 @@ mod reph {
             exp.push('র'); exp.push(H);
             exp.extend(p[exp_pos..].iter());
             match r {
-                Err(_) => failures.push(json!({"input": s, "observed": "panic", "clause": "C01/C13 returns normally"})),
+                Err(_) => fails.push(json!({"input": s, "observed": "panic", "clause": "C01/C13 returns normally"})),
                 Ok(out) => {
-                    // conservation: out == p with "র্" inserted at one position
-                    let o: Vec<char> = out.chars().collect();
-                    let cons = o.len() == p.len() + 2 && (0..=p.len()).any(|k| o[..k] == p[..k] && o[k] == 'র' && o[k + 1] == H && o[k + 2..] == p[k..]);
+                    let ov: Vec<char> = out.chars().collect();
+                    let cons = ov.len() == p.len() + 2 && (0..=p.len()).any(|k| ov[..k] == p[..k] && ov[k] == 'র' && ov[k + 1] == H && ov[k + 2..] == p[k..]);
                     if !cons {
-                        failures.push(json!({"input": s, "observed": out, "clause": "C13 conservation"}));
+                        fails.push(json!({"input": s, "observed": out, "clause": "C13 conservation"}));
                     } else if wf(&p) && out != exp {
-                        failures.push(json!({"input": s, "observed": out, "expected": exp, "clause": "C13 placement"}));
+                        fails.push(json!({"input": s, "observed": out, "expected": exp, "clause": "C13 placement"}));
                     }
-                    if wf(&p) && exp_pos < p.len() { nontrivial += 1; if samples.len() < 5 { samples.push(json!({"input": s, "output": out})); } }
+                    if wf(&p) && exp_pos < p.len() { nontrivial += 1; if samples.len() < 4 { samples.push(json!({"input": s, "output": out})); } }
                 }
             }
         });
-        failures.truncate(20);
-        json!({"check": "reph", "bound": bound, "cases": cases, "nontrivial": nontrivial, "failures": failures, "samples": samples,
-               "domain": "all strings of length <= bound over {ক, র, hasanta, া, ই, chandrabindu, ZWJ, ZWNJ, ।, ং}"})
+        o.nontrivial = nontrivial;
+        for f in fails { o.fail(f); }
+        for s in samples { o.sample(s); }
+        o.done()
+    }
+}
+
+// ---------------------------------------------------------------------------------------------
+/// executable form of split_spec (spec/common/split.vrs), written over Vec<char>
+pub(crate) mod split {
+    use super::*;
+    use crate::utility::SplittedString;
+
+    pub(crate) fn is_meta(c: char) -> bool {
+        "-]~!@#%&*()_=+[{}'\";<>/?|.,\u{0964}\u{2018}\u{2019}\u{201C}\u{201D}".contains(c)
+    }
+    pub(crate) fn split_exec(s: &[char], colon: bool) -> (String, String, String) {
+        let mut f = 0;
+        while f < s.len() && is_meta(s[f]) { f += 1; }
+        if f == s.len() { return (s.iter().collect(), String::new(), String::new()); }
+        let rest = &s[f..];
+        let mut n = rest.len();
+        let mut last = rest.len();
+        let mut escape = false;
+        while n > 0 {
+            let c = rest[n - 1];
+            if !escape && c == '`' { escape = true; n -= 1; }
+            else if ((colon || escape) && c == ':') || is_meta(c) { escape = false; last = n - 1; n -= 1; }
+            else { break; }
+        }
+        (s[..f].iter().collect(), rest[..last].iter().collect(), rest[last..].iter().collect())
+    }
+
+    pub(crate) fn run(bound: usize, shard: usize, nshards: usize) -> Value {
+        // one representative of every class the code distinguishes
+        let alpha = ['a', '1', '`', ':', '\'', '"', '.', ')', '\u{0964}', '\u{0983}', 'ক', '\u{201C}'];
+        let mut o = Out::new("split", bound, "all strings of length <= bound over {a,1,`,:,',\",.,),।,ঃ,ক,“} x include_colon");
+        let mut fails = Vec::new();
+        let mut nt = 0u64;
+        o.cases = 2 * for_all_strings(&alpha, bound, shard, nshards, |s| {
+            let cs: Vec<char> = s.chars().collect();
+            for colon in [false, true] {
+                let exp = split_exec(&cs, colon);
+                let got = SplittedString::split(s, colon);
+                let g = (got.preceding().to_string(), got.word().to_string(), got.trailing().to_string());
+                if g != exp {
+                    fails.push(json!({"clause": "C03 split == split_spec", "input": s, "include_colon": colon, "observed": [g.0, g.1, g.2], "expected": [exp.0, exp.1, exp.2]}));
+                }
+                if !exp.1.is_empty() && (!exp.0.is_empty() || !exp.2.is_empty()) { nt += 1; }
+            }
+        });
+        o.nontrivial = nt;
+        for f in fails { o.fail(f); }
+        o.sample(json!({"input": "\"a:`.", "expected": split_exec(&"\"a:`.".chars().collect::<Vec<_>>(), false)}));
+        o.done()
+    }
+}
+
+// ---------------------------------------------------------------------------------------------
+mod misc {
+    use super::*;
+    use crate::fixed::method::FixedMethod;
+
+    pub(crate) fn backspace_step(bound: usize) -> Value {
+        let alpha = ['a', '\u{00E9}', 'ক', '😀'];
+        let mut o = Out::new("backspace_step", bound, "all strings of length <= bound over {1,2,3,4-byte char} x n <= bound+1");
+        let mut fails = Vec::new();
+        o.cases = for_all_strings(&alpha, bound, 0, 1, |s| {
+            let cs: Vec<char> = s.chars().collect();
+            for n in 0..=bound + 1 {
+                let mut m = FixedMethod::verif_with_buffer(s);
+                m.verif_internal_backspace_step(n);
+                let keep = cs.len() - n.min(cs.len());
+                let exp: String = cs[..keep].iter().collect();
+                if m.verif_buffer() != exp {
+                    fails.push(json!({"clause": "C13 internal_backspace_step removes the last min(n,len) code points", "input": s, "n": n, "observed": m.verif_buffer(), "expected": exp}));
+                }
+            }
+        }) * (bound as u64 + 2);
+        o.nontrivial = o.cases / 2;
+        for f in fails { o.fail(f); }
+        o.sample(json!({"input": "aক😀", "n": 2, "expected": "a"}));
+        o.done()
+    }
+
+    pub(crate) fn layout_values() -> Value {
+        crate::fixed::method::verif_layout_values()
+    }
+}
+
+// ---------------------------------------------------------------------------------------------
+pub(crate) struct Sess {
+    pub cfgv: Value,
+    pub ctx: RitiContext,
+    pub events: Vec<Value>,
+}
+impl Sess {
+    pub fn new(cfgv: Value) -> Self {
+        let cfg = make_config(&cfgv);
+        Sess { cfgv, ctx: RitiContext::new_with_config(&cfg), events: Vec::new() }
+    }
+    pub fn key(&mut self, c: char, sel: u8) -> Suggestion {
+        self.events.push(json!({"key": c.to_string(), "sel": sel}));
+        self.ctx.get_suggestion_for_key(crate::verif_driver::keycode_of(c), 0, sel)
+    }
+    pub fn typ(&mut self, text: &str) -> Option<Suggestion> {
+        let mut last = None;
+        let mut sel = 0u8;
+        for c in text.chars() {
+            let s = self.key(c, sel);
+            if !s.is_lonely() { sel = s.previously_selected_index() as u8; }
+            last = Some(s);
+        }
+        last
+    }
+    pub fn bs(&mut self, ctrl: bool) -> Suggestion {
+        self.events.push(json!({"backspace": ctrl}));
+        self.ctx.backspace_event(ctrl)
+    }
+    pub fn commit(&mut self, i: usize) {
+        self.events.push(json!({"commit": i}));
+        self.ctx.candidate_committed(i)
+    }
+    pub fn finish(&mut self) {
+        self.events.push(json!("finish"));
+        self.ctx.finish_input_session()
+    }
+    pub fn history(&self) -> Value {
+        json!({"user_dir": std::env::var("XDG_DATA_HOME").unwrap_or_default(), "keep_files": true, "config": self.cfgv, "events": self.events})
+    }
+}
+
+pub(crate) fn phon_cfg(extra: Value) -> Value {
+    let mut c = json!({"layout": "avro_phonetic", "database_dir": crate::verif_driver::data_dir(), "phonetic_suggestion": true, "smart_quote": false});
+    if let Some(m) = extra.as_object() { for (k, v) in m { c[k] = v.clone(); } }
+    c
+}
+pub(crate) fn fixed_cfg(extra: Value) -> Value {
+    let mut c = json!({"layout": crate::verif_driver::synthetic_layout(), "database_dir": crate::verif_driver::data_dir(), "smart_quote": false});
+    if let Some(m) = extra.as_object() { for (k, v) in m { c[k] = v.clone(); } }
+    c
+}
+
+/// C02: a returned suggestion is self-consistent and fully retrievable
+pub(crate) fn check_sg(s: &Suggestion, composition: Option<&str>) -> Option<String> {
+    if s.is_lonely() {
+        let _ = s.get_pre_edit_text(0);
+        return None;
+    }
+    let n = s.len();
+    if n == 0 { return Some("list suggestion without candidates".into()); }
+    if s.previously_selected_index() >= n { return Some(format!("previously selected index {} >= length {}", s.previously_selected_index(), n)); }
+    if let Some(c) = composition { if s.get_auxiliary_text() != c { return Some(format!("auxiliary text {:?} != composition {:?}", s.get_auxiliary_text(), c)); } }
+    for i in 0..n { let _ = &s.get_suggestions()[i]; let _ = s.get_pre_edit_text(i); }
+    None
+}
+
+pub(crate) fn texts(s: &Suggestion) -> Vec<String> {
+    if s.is_lonely() { vec![s.get_lonely_suggestion().to_string()] } else { s.get_suggestions().to_vec() }
+}
+
+mod api {
+    use super::*;
+    use okkhor::parser::Parser;
+
+    const WORDS: [&str; 14] = ["a", "ami", "amar", "kotha", "sesh", "bow", "cool", "academy", "atm", "smile", "up", "x", "o", "bisoy"];
+
+    fn phon_texts(bound: usize) -> Vec<String> {
+        // words, words wrapped in punctuation, emoticons, punctuation only, escapes
+        let mut v: Vec<String> = Vec::new();
+        for w in WORDS.iter().take(if bound >= 2 { 14 } else { 8 }) {
+            v.push(w.to_string());
+            v.push(format!("\"{}\"", w));
+            v.push(format!("({}.", w));
+            v.push(format!("{}:", w));
+            v.push(format!("'{}?'", w));
+        }
+        for e in [":)", ";)", "x)", "o=)", ":D", "<3", ":-))", ".", "...", "\"", "`", "`a", "a`", ":e", "\\", "^_^", "$", "a:`", "kothagulo", "seshgulo", "amake", "bisoyshombondhiyoo"] { v.push(e.to_string()); }
+        v
+    }
+
+    fn avro3(p: &Parser, text: &str) -> String {
+        let cs: Vec<char> = text.chars().collect();
+        let (a, b, c) = split::split_exec(&cs, false);
+        format!("{}{}{}", p.convert(&a), p.convert(&b), p.convert(&c))
+    }
+    fn curl_open(s: &str) -> String { s.chars().map(|c| match c { '\'' => '\u{2018}', '"' => '\u{201C}', c => c }).collect() }
+    fn curl_close(s: &str) -> String { s.chars().map(|c| match c { '\'' => '\u{2019}', '"' => '\u{201D}', c => c }).collect() }
+
+    /// C02, C03, C07, C16 (phonetic): every text of the corpus, typed key by key, under option combinations
+    pub(crate) fn phonetic(bound: usize, shard: usize, nshards: usize) -> Value {
+        let mut o = Out::new("phonetic_api", bound, "corpus of words (bare / wrapped in punctuation), emoticons, punctuation-only and escape texts x {suggestions, English, smart quote, ANSI}");
+        let parser = Parser::new_phonetic();
+        let data = crate::data::Data::new(&make_config(&phon_cfg(json!({}))));
+        let dict: std::collections::HashSet<String> = {
+            let t: std::collections::HashMap<String, Vec<String>> = serde_json::from_str(&std::fs::read_to_string(format!("{}/dictionary.json", crate::verif_driver::data_dir())).unwrap()).unwrap();
+            t.into_values().flatten().collect()
+        };
+        let textsv = phon_texts(bound);
+        let mut idx = 0usize;
+        for sug in [true, false] { for eng in [false, true] { for smart in [false, true] { for ansi in [false, true] {
+            let cfgv = phon_cfg(json!({"phonetic_suggestion": sug, "include_english": eng, "smart_quote": smart, "ansi": ansi}));
+            for t in &textsv {
+                idx += 1;
+                if idx % nshards != shard { continue; }
+                o.cases += 1;
+                let mut s = Sess::new(cfgv.clone());
+                let mut typed = String::new();
+                let mut last = None;
+                let mut bad = false;
+                let mut sel = 0u8;
+                for c in t.chars() {
+                    typed.push(c);
+                    let sg = s.key(c, sel);
+                    if !sg.is_lonely() { sel = sg.previously_selected_index() as u8; }
+                    if let Some(e) = check_sg(&sg, Some(&typed)) { o.fail(json!({"clause": "C02 ".to_string() + &e, "history": s.history()})); bad = true; break; }
+                    last = Some(sg);
+                }
+                if bad { continue; }
+                let sg = last.unwrap();
+                let cs: Vec<char> = t.chars().collect();
+                let (p, w, tr) = split::split_exec(&cs, false);
+                let plain = avro3(&parser, t);
+                if !sug {
+                    // C03: the single string is avro(leading) + avro(word) + avro(trailing)
+                    if !sg.is_lonely() || sg.get_lonely_suggestion() != plain {
+                        o.fail(json!({"clause": "C03 suggestions off: result == avro(p)+avro(w)+avro(t)", "history": s.history(), "observed": show(&sg), "expected": plain}));
+                    }
+                    if ansi && sg.get_pre_edit_text(0) != poriborton::bijoy2000::unicode_to_bijoy(&plain) { o.fail(json!({"clause": "C16 pre-edit == bijoy(candidate)", "history": s.history()})); }
+                    continue;
+                }
+                o.nontrivial += 1;
+                let list = texts(&sg);
+                let (pa, ta) = (parser.convert(&p), parser.convert(&tr));
+                let (pc, tc) = if smart && !w.is_empty() { (curl_open(&pa), curl_close(&ta)) } else { (pa.clone(), ta.clone()) };
+                let translit = format!("{}{}{}", pc, parser.convert(&w), tc);
+                // C03: the transliteration (modulo curling) is always a candidate
+                if !list.contains(&translit) { o.fail(json!({"clause": "C03 transliteration is a candidate", "history": s.history(), "observed": list, "expected": translit})); }
+                // C07: no candidate text twice
+                for i in 0..list.len() { for j in 0..i { if list[i] == list[j] { o.fail(json!({"clause": "C07 no candidate text occurs twice", "history": s.history(), "observed": list})); } } }
+                let emoticon = data.get_emoji_by_emoticon(t).map(|e| e.to_string());
+                let named: Vec<String> = if emoticon.is_none() { data.get_emoji_by_name(&w).map(|i| i.map(|e| format!("{}{}{}", pc, e, tc)).collect()).unwrap_or_default() } else { vec![] };
+                let is_emoji = |x: &String| Some(x) == emoticon.as_ref() || named.contains(x);
+                if ansi {
+                    // C16: nothing that cannot be encoded
+                    if list.iter().any(|x| is_emoji(x) && *x != translit) || (list.contains(t) && *t != translit && t.is_ascii() && t.chars().any(|c| c.is_ascii_alphabetic())) {
+                        o.fail(json!({"clause": "C16 ANSI: no emoji / raw English candidate", "history": s.history(), "observed": list}));
+                    }
+                    for i in 0..list.len() { if sg.get_pre_edit_text(i) != poriborton::bijoy2000::unicode_to_bijoy(&list[i]) { o.fail(json!({"clause": "C16 pre-edit == bijoy(candidate)", "history": s.history()})); } }
+                } else {
+                    for i in 0..list.len() { if sg.get_pre_edit_text(i) != list[i] { o.fail(json!({"clause": "C16 pre-edit == candidate without ANSI", "history": s.history()})); } }
+                    // C18: emoticon / emoji name candidates
+                    if let Some(e) = &emoticon {
+                        if !list.contains(e) { o.fail(json!({"clause": "C18 emoticon offers its emoji", "history": s.history(), "observed": list, "expected": e})); }
+                        if !list.contains(t) { o.fail(json!({"clause": "C18 literal emoticon text stays available", "history": s.history(), "observed": list})); }
+                    }
+                    let pos: Vec<Option<usize>> = named.iter().map(|e| list.iter().position(|x| x == e)).collect();
+                    if pos.iter().any(|p| p.is_none()) || pos.windows(2).any(|w| w[0] >= w[1]) {
+                        o.fail(json!({"clause": "C18 emoji name offers all its emoji in table order, wrapped like the word", "history": s.history(), "observed": list, "expected": named}));
+                    }
+                    // C07: raw English text last
+                    if eng && emoticon.is_none() && *t != pc && list.last() != Some(t) && *t != translit {
+                        o.fail(json!({"clause": "C07 raw English text is last", "history": s.history(), "observed": list}));
+                    }
+                }
+                // C07: auto-correct entry first; the plain transliteration, unless it is itself a dictionary word, after every dictionary-derived word
+                let core = |x: &String| -> Option<String> { x.strip_prefix(pc.as_str()).and_then(|y| y.strip_suffix(tc.as_str())).map(|y| y.to_string()) };
+                let base = parser.convert(&w);
+                let ac = data.search_corrected(&w).map(|c| parser.convert(c));
+                if let Some(a) = &ac {
+                    if !w.is_empty() && core(&list[0]).as_ref() != Some(a) { o.fail(json!({"clause": "C07 auto-correct entry is first", "history": s.history(), "observed": list, "expected": a})); }
+                }
+                if !w.is_empty() && ac.as_ref() != Some(&base) && !dict.contains(&base) {
+                    if let Some(pos) = list.iter().position(|x| core(x).as_ref() == Some(&base)) {
+                        for x in list.iter().skip(pos + 1) {
+                            if is_emoji(x) || x == t { continue; }
+                            o.fail(json!({"clause": "C07 the plain transliteration comes after every dictionary word", "history": s.history(), "observed": list}));
+                            break;
+                        }
+                    }
+                }
+                o.sample(json!({"text": t, "list": list}));
+            }
+        }}}}
+        o.done()
+    }
+
+    /// C02, C06, C15, C16 (fixed): keys of the synthetic layout
+    pub(crate) fn fixed(bound: usize, shard: usize, nshards: usize) -> Value {
+        let mut o = Out::new("fixed_api", bound, "key texts over the synthetic layout (words, wrapped words, fused keys) x {traditional kar, smart quote, English, ANSI}; per step C02, at the end C15/C16, then terminating events vs a fresh context (C06)");
+        let data = crate::data::Data::new(&make_config(&fixed_cfg(json!({}))));
+        // keys of data/synthetic_layout.json: t=ক w=্ i=ত p=া o=ঁ e=ি d=ে c=ু u=র a=আ s=য v=ই x=। m=ো
+        let words = ["t", "tp", "api", "tc", "utc", "twi", "ap", "tpt", "\"tp\"", "(ap)", "tpx", "we", "dtp", "tcx", "apitpu", "'tcu'"];
+        let mut idx = 0usize;
+        for trad in [false, true] { for smart in [false, true] { for eng in [false, true] { for ansi in [false, true] {
+            let cfgv = fixed_cfg(json!({"fixed_suggestion": true, "fixed_kar": trad, "smart_quote": smart, "include_english": eng, "ansi": ansi, "fixed_vowel": true}));
+            for w in words.iter().take(if bound >= 2 { words.len() } else { 9 }) {
+                idx += 1;
+                if idx % nshards != shard { continue; }
+                o.cases += 1;
+                let mut s = Sess::new(cfgv.clone());
+                let mut last = None;
+                let mut bad = false;
+                for c in w.chars() {
+                    let sg = s.key(c, 0);
+                    if let Some(e) = check_sg(&sg, None) { o.fail(json!({"clause": "C02 ".to_string() + &e, "history": s.history()})); bad = true; break; }
+                    last = Some(sg);
+                }
+                if bad { continue; }
+                let sg = last.unwrap();
+                if sg.is_lonely() { o.fail(json!({"clause": "C15 list-style suggestion with suggestions on", "history": s.history()})); continue; }
+                let list = texts(&sg);
+                let composed = sg.get_auxiliary_text().to_string();
+                let cs: Vec<char> = composed.chars().collect();
+                let (p, word, tr) = split::split_exec(&cs, true);
+                let (pc, tc) = if smart && !word.is_empty() { (curl_open(&p), curl_close(&tr)) } else { (p.clone(), tr.clone()) };
+                o.nontrivial += 1;
+                // C15: first candidate is the composed text itself (curled)
+                let first = format!("{}{}{}", pc, word, tc);
+                if list[0] != first { o.fail(json!({"clause": "C15 first candidate is the composed text (curled)", "history": s.history(), "observed": list, "expected": first})); }
+                if list.len() > 9 { o.fail(json!({"clause": "C15 at most nine candidates", "history": s.history(), "observed": list})); }
+                for i in 0..list.len() { for j in 0..i { if list[i] == list[j] { o.fail(json!({"clause": "C15 no candidate repeats", "history": s.history(), "observed": list})); } } }
+                let emojis: Vec<String> = data.get_emoji_by_bengali(&word).map(|i| i.map(|e| format!("{}{}{}", pc, e, tc)).collect()).unwrap_or_default();
+                let english = if eng && !ansi && composed != *w { Some(w.to_string()) } else { None };
+                if let Some(e) = &english { if list.last() != Some(e) { o.fail(json!({"clause": "C15 raw key text is the last candidate", "history": s.history(), "observed": list})); } }
+                let clean = |x: &str| -> String { x.chars().filter(|c| !"|()[]{}^$*+?.~!@#%&-_='\";<>/\\,:`।\u{200C}\u{2018}\u{2019}\u{201C}\u{201D}".contains(*c)).collect() };
+                let mut prev = 0usize;
+                for (i, x) in list.iter().enumerate() {
+                    if emojis.contains(x) || Some(x) == english.as_ref() { if ansi && emojis.contains(x) { o.fail(json!({"clause": "C16 ANSI: no emoji candidate", "history": s.history(), "observed": list})); } continue; }
+                    let core = x.strip_prefix(pc.as_str()).and_then(|y| y.strip_suffix(tc.as_str())).unwrap_or(x).to_string();
+                    if i > 0 && !clean(&core).starts_with(&clean(&word)) { o.fail(json!({"clause": "C15 candidates are prefix completions of the typed word", "history": s.history(), "observed": list})); }
+                    // C15: non-decreasing edit distance from the typed word
+                    let d = edit_distance::edit_distance(&word, &core);
+                    if d < prev { o.fail(json!({"clause": "C15 non-emoji candidates in non-decreasing edit distance", "history": s.history(), "observed": list, "distances": [prev, d]})); }
+                    prev = d;
+                }
+                if ansi && (list.iter().any(|x| x.is_ascii() && x.chars().any(|c| c.is_ascii_alphabetic()))) { o.fail(json!({"clause": "C16 ANSI: no raw English candidate", "history": s.history(), "observed": list})); }
+                for i in 0..list.len() {
+                    let exp = if ansi { poriborton::bijoy2000::unicode_to_bijoy(&list[i]) } else { list[i].clone() };
+                    if sg.get_pre_edit_text(i) != exp { o.fail(json!({"clause": "C16 pre-edit text", "history": s.history()})); }
+                }
+                o.sample(json!({"keys": w, "list": list}));
+            }
+        }}}}
+        o.done()
+    }
+
+    fn same(a: &Suggestion, b: &Suggestion) -> bool {
+        a.is_lonely() == b.is_lonely() && texts(a) == texts(b) && (a.is_lonely() || a.previously_selected_index() == b.previously_selected_index())
+    }
+
+    /// C05: the suggestion for a text does not depend on how the text was reached
+    pub(crate) fn history_independence(bound: usize) -> Value {
+        let mut o = Out::new("history_independence", bound, "target texts x {typed directly in a fresh context; after other words; via detours with backspace; in a context that has memoised > 1100 prefixes (thorough)}");
+        let targets = ["kothagulo", "asgulo", "\"amar\"", "seshta", "(bisoyer)", "hellogulo", "amake:", "kotha", "`a", "ami."];
+        for eng in [false, true] {
+            let cfgv = phon_cfg(json!({"include_english": eng, "smart_quote": eng}));
+            // a long-lived context
+            let mut warm = Sess::new(cfgv.clone());
+            let filler = if bound >= 2 { 420 } else { 40 };
+            let cons = ['k', 'g', 'c', 'j', 't', 'd', 'n', 'p', 'b', 'm', 'r', 'l', 's', 'h', 'z'];
+            for i in 0..filler {
+                let w = format!("{}{}{}o", cons[i % 15], ['a', 'i', 'u', 'e', 'o'][(i / 15) % 5], cons[(i / 75) % 15]);
+                warm.typ(&w); warm.finish();
+            }
+            for t in targets.iter() {
+                o.cases += 1;
+                let mut fresh = Sess::new(cfgv.clone());
+                let a = fresh.typ(t).unwrap();
+                // (1) warm context, directly
+                let b = warm.typ(t).unwrap(); warm.finish();
+                if !same(&a, &b) { o.fail(json!({"clause": "C05 warm context == fresh context", "text": t, "history": {"note": "long-lived context after many filler words", "config": cfgv, "filler_words": filler}, "observed": show(&b), "expected": show(&a)})); }
+                // (2) detour: type an extra character at every position then backspace it
+                let mut det = Sess::new(cfgv.clone());
+                let mut last = None;
+                let mut sel = 0u8;
+                for c in t.chars() {
+                    let _ = det.key('x', 0); let _ = det.bs(false);
+                    let s1 = det.key(c, sel);
+                    if !s1.is_lonely() { sel = s1.previously_selected_index() as u8; }
+                    last = Some(s1);
+                }
+                // the last key must carry the same selection byte as in the fresh run for the comparison to be fair
+                let c = last.unwrap();
+                if texts(&a) != texts(&c) { o.fail(json!({"clause": "C05 detours with backspace do not change the list", "history": det.history(), "observed": show(&c), "expected": show(&a)})); }
+                // (3) other words first, same context
+                let mut other = Sess::new(cfgv.clone());
+                other.typ("gulo"); other.finish(); other.typ("ta"); other.bs(true); other.typ("er"); other.finish();
+                let d = other.typ(t).unwrap();
+                if !same(&a, &d) { o.fail(json!({"clause": "C05 earlier words do not change the suggestion", "history": other.history(), "observed": show(&d), "expected": show(&a)})); }
+                o.nontrivial += 1;
+                o.sample(json!({"text": t, "list": texts(&a)}));
+            }
+        }
+        o.done()
+    }
+
+    /// C09: a learned choice is preselected again, in the same context and after a restart
+    pub(crate) fn learn_recall(_bound: usize) -> Value {
+        let mut o = Out::new("learn_recall", 1, "words x candidate index 1..3 x {same context, new context}; re-teaching; suffixed forms; wrapped in quotes (smart quotes on)");
+        for smart in [false, true] {
+            let cfgv = phon_cfg(json!({"smart_quote": smart}));
+            crate::verif_driver::reset_user_files();
+            for (w, suffixed) in [("sesh", "seshgulo"), ("kotha", "kothar"), ("\"e\"", "")] {
+                for round in 0..2 {
+                    o.cases += 1;
+                    let mut s = Sess::new(cfgv.clone());
+                    let sg = s.typ(w).unwrap();
+                    if sg.is_lonely() || sg.len() < 2 { continue; }
+                    // pick a candidate other than the preselected one
+                    let want = (sg.previously_selected_index() + 1 + round) % sg.len();
+                    let text = sg.get_suggestions()[want].clone();
+                    s.commit(want);
+                    let again = s.typ(w).unwrap(); s.finish();
+                    if again.get_suggestions().get(again.previously_selected_index()) != Some(&text) {
+                        o.fail(json!({"clause": "C09 learned choice preselected in the same context", "history": s.history(), "observed": show(&again), "expected": text}));
+                    }
+                    let mut fresh = Sess::new(cfgv.clone());
+                    let a2 = fresh.typ(w).unwrap(); fresh.finish();
+                    if a2.get_suggestions().get(a2.previously_selected_index()) != Some(&text) {
+                        o.fail(json!({"clause": "C09 learned choice preselected after a restart", "history": {"first_context": s.history(), "new_context": fresh.history()}, "observed": show(&a2), "expected": text}));
+                    }
+                    // the store on disk is a JSON object of strings
+                    if let Some(txt) = crate::verif_driver::read_user_file("phonetic-candidate-selection.json") {
+                        let ok = serde_json::from_str::<std::collections::HashMap<String, String>>(&txt).is_ok();
+                        if !ok { o.fail(json!({"clause": "C09 store is a JSON object of strings", "history": s.history(), "observed": txt})); }
+                    }
+                    if !suffixed.is_empty() {
+                        let a3 = fresh.typ(suffixed).unwrap(); fresh.finish();
+                        let sel = a3.get_suggestions()[a3.previously_selected_index()].clone();
+                        let stem: String = text.chars().take(text.chars().count().saturating_sub(1)).collect();
+                        if a3.get_suggestions().iter().any(|x| x.starts_with(&stem) && x != &text) && !sel.starts_with(&stem) {
+                            o.fail(json!({"clause": "C09 suffixed form of a learned word is preselected", "history": fresh.history(), "observed": show(&a3), "expected_prefix": stem}));
+                        }
+                    }
+                    o.nontrivial += 1;
+                    o.sample(json!({"word": w, "learned": text}));
+                }
+            }
+        }
+        crate::verif_driver::reset_user_files();
+        o.done()
+    }
+
+    /// C10: whatever the state of the user files, the keyboard keeps working and behaves as if they were absent
+    pub(crate) fn user_files(bound: usize) -> Value {
+        let mut o = Out::new("user_files", bound, "every byte prefix of a store the engine wrote and of a user auto-correct list, malformed / wrong-shape / empty-string documents, missing directory; then a typing + commit + reload session");
+        let cfgv = phon_cfg(json!({}));
+        crate::verif_driver::reset_user_files();
+        // let the engine write its own store (with Bengali text in it)
+        { let mut s = Sess::new(cfgv.clone()); let sg = s.typ("sesh").unwrap(); if !sg.is_lonely() && sg.len() > 1 { s.commit(1); } let sg = s.typ("kotha").unwrap(); if !sg.is_lonely() && sg.len() > 1 { s.commit(1); } }
+        let store = std::fs::read(crate::verif_driver::user_file_path("phonetic-candidate-selection.json")).unwrap_or_default();
+        let ac = "{\"zzq\":\"kotha\",\"hello\":\"\u{09B8}\u{09BE}\u{09B2}\u{09BE}\u{09AE}\",\"e\":\"\"}".as_bytes().to_vec();
+        let mut docs: Vec<(&str, Vec<u8>)> = Vec::new();
+        let step = if bound >= 2 { 1 } else { 3 };
+        for n in (0..=store.len()).step_by(step) { docs.push(("phonetic-candidate-selection.json", store[..n].to_vec())); }
+        for n in (0..=ac.len()).step_by(step) { docs.push(("autocorrect.json", ac[..n].to_vec())); }
+        for d in ["[1,2]", "{\"a\":1}", "null", "{\"a\":\"\",\"\":\"\"}", "{\":\":\"\"}", "\u{FEFF}{}", "{\"a\":{\"b\":\"c\"}}"] {
+            docs.push(("phonetic-candidate-selection.json", d.as_bytes().to_vec()));
+            docs.push(("autocorrect.json", d.as_bytes().to_vec()));
+        }
+        crate::verif_driver::reset_user_files();
+        let reference = { let mut s = Sess::new(cfgv.clone()); texts(&s.typ("ami").unwrap()) };
+        for (name, content) in docs {
+            o.cases += 1;
+            crate::verif_driver::reset_user_files();
+            std::fs::write(crate::verif_driver::user_file_path(name), &content).unwrap();
+            let hist = json!({"config": cfgv, "file": name, "content_lossy": String::from_utf8_lossy(&content), "content_bytes": content, "events": "create context; type ami; type :e, zzqe, ae; commit 0; update_engine; type ami"});
+            let r = std::panic::catch_unwind(std::panic::AssertUnwindSafe(|| {
+                let mut s = Sess::new(cfgv.clone());
+                let a = texts(&s.typ("ami").unwrap()); s.finish();
+                for t in [":e", "zzqe", "ae", "e"] { let _ = s.typ(t); s.finish(); }
+                let sg = s.typ("sesh").unwrap(); if !sg.is_lonely() && sg.len() > 1 { s.commit(1); } else { s.finish(); }
+                let cfg = make_config(&cfgv);
+                s.ctx.update_engine(&cfg);
+                let _ = s.typ("kotha"); s.finish();
+                a
+            }));
+            match r {
+                Err(_) => o.fail(json!({"clause": "C10 damaged user file never stops the keyboard (panic)", "history": hist})),
+                Ok(a) => {
+                    let readable = serde_json::from_slice::<std::collections::HashMap<String, String>>(&content).is_ok();
+                    if !readable && a != reference { o.fail(json!({"clause": "C10 unreadable content is treated as if the file were absent", "history": hist, "observed": a, "expected": reference})); }
+                    o.nontrivial += 1;
+                }
+            }
+        }
+        // missing user-data directory
+        o.cases += 1;
+        crate::verif_driver::remove_user_dir();
+        let r = std::panic::catch_unwind(std::panic::AssertUnwindSafe(|| {
+            let mut s = Sess::new(cfgv.clone());
+            let sg = s.typ("sesh").unwrap(); if !sg.is_lonely() && sg.len() > 1 { s.commit(1); }
+            let _ = s.typ("sesh");
+        }));
+        if r.is_err() { o.fail(json!({"clause": "C10 missing user-data directory never stops the keyboard (panic)", "history": {"config": cfgv, "events": "remove user dir; type sesh; commit 1; type sesh"}})); }
+        crate::verif_driver::reset_user_files();
+        o.sample(json!({"file": "phonetic-candidate-selection.json", "prefix_len": 7}));
+        o.done()
+    }
+
+    /// C11: update_engine on an idle context == a new context
+    pub(crate) fn update_engine(_bound: usize) -> Value {
+        let mut o = Out::new("update_engine", 1, "user auto-correct edits (add / change / remove entry, remove file, damaged file) between two update_engine calls x words typed before the edit; option flips; phonetic <-> fixed");
+        let cfgv = phon_cfg(json!({}));
+        let edits: [(&str, Option<&str>, Option<&str>); 6] = [
+            ("add", None, Some("{\"zzq\":\"kotha\"}")),
+            ("change", Some("{\"zzq\":\"kotha\",\"hello\":\"salam\"}"), Some("{\"zzq\":\"amar\",\"hello\":\"salam\"}")),
+            ("remove entry", Some("{\"zzq\":\"kotha\",\"hello\":\"salam\"}"), Some("{\"zzq\":\"kotha\"}")),
+            ("remove file", Some("{\"hello\":\"salam\"}"), None),
+            ("damage", Some("{\"hello\":\"salam\"}"), Some("{\"hello\":\"sal")),
+            ("empty list", Some("{\"hello\":\"salam\"}"), Some("{}")),
+        ];
+        for (name, before, after) in edits {
+            o.cases += 1;
+            crate::verif_driver::reset_user_files();
+            let path = crate::verif_driver::user_file_path("autocorrect.json");
+            if let Some(b) = before { std::fs::write(&path, b).unwrap(); crate::verif_driver::set_mtime(&path, 1_000_000); }
+            let mut s = Sess::new(cfgv.clone());
+            for w in ["hello", "zzq", "hellogulo", "kotha"] { let _ = s.typ(w); s.finish(); }
+            match after { Some(a) => { std::fs::write(&path, a).unwrap(); crate::verif_driver::set_mtime(&path, 2_000_000); } None => { let _ = std::fs::remove_file(&path); } }
+            let cfg = make_config(&cfgv);
+            s.ctx.update_engine(&cfg);
+            s.events.push(json!({"note": format!("user auto-correct edit: {}; then update_engine", name)}));
+            let mut fresh = Sess::new(cfgv.clone());
+            for w in ["hello", "zzq", "hellogulo", "zzqgulo", "kotha"] {
+                let a = s.typ(w).unwrap(); s.finish();
+                let b = fresh.typ(w).unwrap(); fresh.finish();
+                if !same(&a, &b) { o.fail(json!({"clause": "C11 edited user auto-correct list is honoured for every word after update_engine", "edit": name, "before": before, "after": after, "history": s.history(), "observed": show(&a), "expected": show(&b)})); }
+            }
+            o.nontrivial += 1;
+        }
+        // option flips take effect at once; layout switch
+        for (k, v) in [("include_english", true), ("ansi", true), ("smart_quote", true), ("phonetic_suggestion", false)] {
+            o.cases += 1;
+            crate::verif_driver::reset_user_files();
+            let mut s = Sess::new(cfgv.clone());
+            let _ = s.typ("\"amar\""); s.finish();
+            let mut c2 = cfgv.clone(); c2[k] = json!(v);
+            let cfg = make_config(&c2);
+            s.ctx.update_engine(&cfg);
+            let mut fresh = Sess::new(c2.clone());
+            let a = s.typ("\"amar\"").unwrap(); let b = fresh.typ("\"amar\"").unwrap();
+            if !same(&a, &b) || a.get_pre_edit_text(0) != b.get_pre_edit_text(0) { o.fail(json!({"clause": "C11 option change takes effect at once", "option": k, "observed": show(&a), "expected": show(&b)})); }
+        }
+        {
+            o.cases += 1;
+            let mut s = Sess::new(cfgv.clone());
+            let _ = s.typ("ami"); s.finish();
+            let c2 = fixed_cfg(json!({"fixed_suggestion": true}));
+            let cfg = make_config(&c2);
+            s.ctx.update_engine(&cfg);
+            let mut fresh = Sess::new(c2.clone());
+            let a = s.typ("tp").unwrap(); let b = fresh.typ("tp").unwrap();
+            if !same(&a, &b) { o.fail(json!({"clause": "C11 changed layout switches method", "observed": show(&a), "expected": show(&b)})); }
+        }
+        crate::verif_driver::reset_user_files();
+        o.sample(json!({"edit": "remove entry"}));
+        o.done()
+    }
+
+    fn uncurl(s: &str) -> String { s.chars().map(|c| match c { '\u{2018}' | '\u{2019}' => '\'', '\u{201C}' | '\u{201D}' => '"', c => c }).collect() }
+
+    /// C17: smart quotes on vs off, both methods
+    pub(crate) fn smart_quote(bound: usize) -> Value {
+        let mut o = Out::new("smart_quote", bound, "words (incl. emoji names) x up to two leading / trailing punctuation characters from {\",',(,.} in both methods; list(on) vs list(off)");
+        let punct = ["", "\"", "'", "(", "\"'", "(\""];
+        let close = ["", "\"", "'", ")", "'\"", ".\""];
+        let jobs: Vec<(bool, Vec<&str>)> = vec![(true, vec!["amar", "bow", "e", "smile"]), (false, vec!["tp", "api", "hasi", "t"])];
+        for (phonetic, words) in jobs {
+            for eng in [false, true] {
+                for w in &words { for p in punct.iter() { for c in close.iter() {
+                    let text = format!("{}{}{}", p, w, c);
+                    // the fixed-method word "hasi" is typed with Probhat keys (emoji name হাসি)
+                    let mk = |smart: bool| -> Value {
+                        if phonetic { phon_cfg(json!({"smart_quote": smart, "include_english": eng})) }
+                        else if *w == "hasi" { let mut c = fixed_cfg(json!({"fixed_suggestion": true, "smart_quote": smart, "include_english": eng, "fixed_vowel": true})); c["layout"] = json!(crate::verif_driver::probhat_layout()); c }
+                        else { fixed_cfg(json!({"fixed_suggestion": true, "smart_quote": smart, "include_english": eng, "fixed_vowel": true})) }
+                    };
+                    o.cases += 1;
+                    let mut on = Sess::new(mk(true));
+                    let mut off = Sess::new(mk(false));
+                    let a = on.typ(&text).unwrap();
+                    let b = off.typ(&text).unwrap();
+                    let (la, lb) = (texts(&a), texts(&b));
+                    let ua: Vec<String> = la.iter().map(|x| uncurl(x)).collect();
+                    if ua != lb || (!a.is_lonely() && a.previously_selected_index() != b.previously_selected_index()) {
+                        o.fail(json!({"clause": "C17 list(on) with curved quotes mapped back == list(off)", "history": on.history(), "observed": la, "expected": lb}));
+                    }
+                    // every candidate that is not the raw typed text is curled exactly where the wrapping quotes are
+                    let has_word = !w.is_empty();
+                    for (x, y) in la.iter().zip(lb.iter()) {
+                        if x == &text || !has_word { continue; }
+                        // leading straight quotes of the off-candidate must be opening quotes in the on-candidate, trailing ones closing
+                        let yl: Vec<char> = y.chars().collect();
+                        let xl: Vec<char> = x.chars().collect();
+                        if xl.len() != yl.len() { continue; }
+                        let lead = yl.iter().take_while(|c| split::is_meta(**c)).count();
+                        let trail = yl.iter().rev().take_while(|c| split::is_meta(**c)).count();
+                        for i in 0..yl.len() {
+                            let exp = if i < lead { match yl[i] { '\'' => '\u{2018}', '"' => '\u{201C}', c => c } }
+                                      else if i >= yl.len() - trail && lead < yl.len() { match yl[i] { '\'' => '\u{2019}', '"' => '\u{201D}', c => c } } else { yl[i] };
+                            if lead < yl.len() && xl[i] != exp { o.fail(json!({"clause": "C17 wrapping quotes are curled in every candidate that is not the raw text", "history": on.history(), "observed": x, "off": y})); break; }
+                        }
+                    }
+                    if p.contains('"') || c.contains('"') { o.nontrivial += 1; o.sample(json!({"text": text, "on": la})); }
+                }}}
+            }
+        }
+        o.done()
+    }
+
+    /// C16 in both methods for a word corpus
+    pub(crate) fn ansi(_bound: usize) -> Value {
+        let mut o = Out::new("ansi", 1, "word corpus in both methods with ANSI on, both setter orders of {ANSI, English}");
+        for order in [0, 1] {
+            for phonetic in [true, false] {
+                for w in ["ami", "bow", ":)", "amar", "tp", "api"] {
+                    o.cases += 1;
+                    let mut cfgv = if phonetic { phon_cfg(json!({})) } else { fixed_cfg(json!({"fixed_suggestion": true})) };
+                    cfgv["setter_order"] = json!(if order == 0 { ["include_english", "ansi"] } else { ["ansi", "include_english"] });
+                    cfgv["include_english"] = json!(true); cfgv["ansi"] = json!(true);
+                    let mut s = Sess::new(cfgv);
+                    let sg = s.typ(w).unwrap();
+                    if sg.is_lonely() { continue; }
+                    let list = texts(&sg);
+                    for (i, x) in list.iter().enumerate() {
+                        if x.chars().any(|c| c.is_ascii_alphabetic()) || x.chars().any(|c| (c as u32) >= 0x1F000 || ((c as u32) >= 0x2600 && (c as u32) < 0x2800)) {
+                            o.fail(json!({"clause": "C16 ANSI: no emoji, emoticon-derived or raw English candidate", "history": s.history(), "observed": list}));
+                        }
+                        let pe = sg.get_pre_edit_text(i);
+                        if pe != poriborton::bijoy2000::unicode_to_bijoy(x) { o.fail(json!({"clause": "C16 pre-edit == Bijoy encoding of the candidate", "history": s.history()})); }
+                        if pe.chars().any(|c| ('\u{0980}'..='\u{09FF}').contains(&c)) { o.fail(json!({"clause": "C16 no Bengali-block code point in ANSI pre-edit text", "history": s.history(), "observed": pe})); }
+                    }
+                    o.nontrivial += 1;
+                    o.sample(json!({"word": w, "list": list}));
+                }
+            }
+        }
+        o.done()
+    }
+
+    /// C18: every emoticon / emoji name of the tables (tables parsed from the emojicon sources by tools/gen_tables.py)
+    pub(crate) fn emoji_tables(bound: usize, shard: usize, nshards: usize) -> Value {
+        let mut o = Out::new("emoji_tables", bound, "every emoticon and every English emoji name of the emojicon tables that is typeable, bare (quick: every 4th) and wrapped in parentheses, phonetic mode; every Bengali name through create_dictionary_suggestion is covered by the fixed_api check only for layout-typeable names");
+        let tables: Value = serde_json::from_str(&std::fs::read_to_string(crate::verif_driver::gen_file("emoji_tables.json")).unwrap_or("{}".into())).unwrap_or(json!({}));
+        let data = crate::data::Data::new(&make_config(&phon_cfg(json!({}))));
+        let step = if bound >= 2 { 1 } else { 4 };
+        let mut idx = 0usize;
+        let cfgv = phon_cfg(json!({}));
+        let typeable = |s: &str| s.chars().all(|c| c.is_ascii_graphic() && crate::verif_driver::has_key(c));
+        for e in tables["emoticons"].as_array().cloned().unwrap_or_default() {
+            let e = e.as_str().unwrap().to_string();
+            idx += 1;
+            if idx % step != 0 || (idx / step) % nshards != shard || !typeable(&e) { continue; }
+            o.cases += 1;
+            let emoji = match data.get_emoji_by_emoticon(&e) { Some(x) => x.to_string(), None => continue };
+            let mut s = Sess::new(cfgv.clone());
+            let sg = s.typ(&e).unwrap();
+            let list = texts(&sg);
+            if !list.contains(&emoji) { o.fail(json!({"clause": "C18 emoticon offers its emoji", "history": s.history(), "observed": list, "expected": emoji})); }
+            if !list.contains(&e) { o.fail(json!({"clause": "C18 literal emoticon text stays available", "history": s.history(), "observed": list})); }
+            o.nontrivial += 1;
+        }
+        for n in tables["names"].as_array().cloned().unwrap_or_default() {
+            let n = n.as_str().unwrap().to_string();
+            idx += 1;
+            if idx % step != 0 || (idx / step) % nshards != shard || !typeable(&n) || !n.chars().all(|c| c.is_ascii_alphanumeric()) { continue; }
+            if data.get_emoji_by_emoticon(&n).is_some() { continue; }
+            let emojis: Vec<String> = match data.get_emoji_by_name(&n) { Some(i) => i.map(|x| x.to_string()).collect(), None => continue };
+            for wrapped in [false, true] {
+                o.cases += 1;
+                let text = if wrapped { format!("({})", n) } else { n.clone() };
+                let mut s = Sess::new(cfgv.clone());
+                let sg = s.typ(&text).unwrap();
+                let list = texts(&sg);
+                let want: Vec<String> = emojis.iter().map(|x| if wrapped { format!("({})", x) } else { x.clone() }).collect();
+                let pos: Vec<Option<usize>> = want.iter().map(|x| list.iter().position(|y| y == x)).collect();
+                if pos.iter().any(|p| p.is_none()) || pos.windows(2).any(|w| w[0] >= w[1]) {
+                    o.fail(json!({"clause": "C18 emoji name offers all its emoji, in table order, wrapped like the word", "history": s.history(), "observed": list, "expected": want}));
+                }
+                o.nontrivial += 1;
+            }
+            o.sample(json!({"name": n, "emoji": emojis}));
+        }
+        o.done()
+    }
+
+    /// C08: completeness and soundness of suffix forms
+    pub(crate) fn suffix_forms(bound: usize) -> Value {
+        let mut o = Out::new("suffix_forms", bound, "base words x every suffix key of suffix.json (quick: every 9th; plus the longest keys), bare and wrapped: every candidate of the base alone is offered joined");
+        let cfgv = phon_cfg(json!({}));
+        let suffixes: std::collections::BTreeMap<String, String> = serde_json::from_str(&std::fs::read_to_string(format!("{}/suffix.json", crate::verif_driver::data_dir())).unwrap()).unwrap();
+        let mut keys: Vec<&String> = suffixes.keys().collect();
+        keys.sort_by_key(|k| std::cmp::Reverse(k.len()));
+        let step = if bound >= 2 { 1 } else { 9 };
+        let parser = Parser::new_phonetic();
+        use crate::utility::Utility;
+        let join = |base: &str, suffix: &str| -> String {
+            let rmc = base.chars().last().unwrap_or_default();
+            let lmc = suffix.chars().next().unwrap_or_default();
+            let mut w = base.to_string();
+            if rmc.is_vowel() && lmc.is_kar() { w.push('\u{09DF}'); }
+            else if rmc == '\u{09CE}' { w.pop(); w.push('\u{09A4}'); }
+            else if rmc == '\u{0982}' { w.pop(); w.push('\u{0999}'); }
+            w.push_str(suffix);
+            w
+        };
+        let dict: std::collections::HashSet<String> = {
+            let t: std::collections::HashMap<String, Vec<String>> = serde_json::from_str(&std::fs::read_to_string(format!("{}/dictionary.json", crate::verif_driver::data_dir())).unwrap()).unwrap();
+            t.into_values().flatten().collect()
+        };
+        let data = crate::data::Data::new(&make_config(&cfgv));
+        for base in ["bisoy", "kotha", "hotat", "ebong", "academy"] {
+            let ac = data.search_corrected(base).map(|c| parser.convert(c));
+            let mut s = Sess::new(cfgv.clone());
+            let direct = { let sg = s.typ(base).unwrap(); s.finish(); texts(&sg) };
+            for (i, k) in keys.iter().enumerate() {
+                if i >= 6 && i % step != 0 { continue; }
+                o.cases += 1;
+                let word = format!("{}{}", base, k);
+                let sg = s.typ(&word).unwrap(); s.finish();
+                let list = texts(&sg);
+                for d in &direct {
+                    // direct candidates of the base = dictionary words (and its auto-correct entry); other entries of the
+                    // base's own list are suffix-built forms, the transliteration or emoji
+                    if !dict.contains(d) && Some(d) != ac.as_ref() { continue; }
+                    let j = join(d, &suffixes[*k]);
+                    if !list.contains(&j) { o.fail(json!({"clause": "C08 every direct candidate of the base is offered joined with the suffix", "history": s.history(), "word": word, "observed": list, "expected": j})); break; }
+                }
+                o.nontrivial += 1;
+            }
+            o.sample(json!({"base": base, "direct": direct}));
+        }
+        o.done()
+    }
+}
+
+// ---------------------------------------------------------------------------------------------
+/// C12 / C14 / C06 (fixed): an executable model written from the statements, compared step by step
+mod rules {
+    use super::*;
+    use crate::utility::Utility;
+
+    const H: char = '\u{09CD}';
+    fn to_vowel(k: char) -> Option<char> {
+        Some(match k { 'া' => 'আ', 'ি' => 'ই', 'ী' => 'ঈ', 'ু' => 'উ', 'ূ' => 'ঊ', 'ৃ' => 'ঋ', 'ে' => 'এ', 'ৈ' => 'ঐ', 'ো' => 'ও', 'ৌ' => 'ঔ', _ => return None })
+    }
+    fn marks(c: char) -> bool { "`~!@#$%^+*-_=+\\|\"/;:,./?><()[]{}".contains(c) }
+    /// the C12 priority chain (old vowel-sign order off)
+    pub(crate) fn c12(buf: &str, value: &str, vowel: bool, chandra: bool, trad: bool) -> String {
+        let b: Vec<char> = buf.chars().collect();
+        let v: Vec<char> = value.chars().collect();
+        let rmc = b.last().copied().unwrap_or('\0');
+        let mut out = buf.to_string();
+        if value == "\u{09CD}\u{09AF}" {
+            if rmc == 'র' && !(b.len() >= 2 && b[b.len() - 2] == H) { out.push('\u{200D}'); }
+            out.push_str(value);
+            return out;
+        }
+        if !v.is_empty() && v[0].is_kar() {
+            let k = v[0];
+            if vowel && (b.is_empty() || rmc.is_vowel() || marks(rmc)) { out.push(to_vowel(k).unwrap_or(k)); }
+            else if chandra && rmc == '\u{0981}' { out.pop(); out.push(k); out.push('\u{0981}'); }
+            else if rmc == H { match to_vowel(k) { Some(x) => { out.pop(); out.push(x); } None => out.push(k) } }
+            else if trad && rmc.is_pure_consonant() { if "ুূৃ".contains(k) { out.push('\u{200C}'); } out.push(k); }
+            else { out.push(k); }
+            out.extend(v[1..].iter());
+            return out;
+        }
+        if !v.is_empty() && v[0] == H && rmc == H { out.push('\u{200C}'); return out; }
+        if !v.is_empty() && v[0] == '\u{09D7}' && rmc == H { out.pop(); out.push('ঔ'); return out; }
+        out.push_str(value);
+        out
+    }
+
+    pub(crate) fn run(bound: usize, shard: usize, nshards: usize) -> Value {
+        let mut o = Out::new("fixed_rules", bound, "all key histories of length <= bound (quick 3) over 12 keys of the synthetic layout + backspace, old reph off, x 8 settings of {auto vowel, auto chandrabindu, traditional joining}; step-by-step against the C12 model; typewriter-order vs Unicode-order words for C14");
+        // t=ক u=র w=্ y=্য p=া e=ি c=ু o=ঁ x=। h=ৗ j=ুঁ z=ৄ
+        let keys = ['t', 'u', 'w', 'y', 'p', 'e', 'c', 'o', 'x', 'h', 'j', 'z', '\u{8}'];
+        let values = ["ক", "র", "্", "্য", "া", "ি", "ু", "ঁ", "।", "ৗ", "ুঁ", "ৄ"];
+        let mut fails = Vec::new();
+        let mut nt = 0u64;
+        let mut cases = 0u64;
+        for setting in 0..8u8 {
+            let (vowel, chandra, trad) = (setting & 1 != 0, setting & 2 != 0, setting & 4 != 0);
+            let cfgv = fixed_cfg(json!({"fixed_vowel": vowel, "fixed_chandra": chandra, "fixed_kar": trad}));
+            cases += for_all_strings(&keys, bound, shard, nshards, |h| {
+                let mut s = Sess::new(cfgv.clone());
+                let mut model = String::new();
+                for c in h.chars() {
+                    let sg = if c == '\u{8}' { if !model.is_empty() { model.pop(); } s.bs(false) } else {
+                        let idx = keys.iter().position(|k| *k == c).unwrap();
+                        model = c12(&model, values[idx], vowel, chandra, trad);
+                        s.key(c, 0)
+                    };
+                    let got = if sg.is_lonely() { sg.get_lonely_suggestion().to_string() } else { sg.get_auxiliary_text().to_string() };
+                    if got != model {
+                        fails.push(json!({"clause": "C12 composed text follows the documented rules", "history": s.history(), "observed": got, "expected": model}));
+                        break;
+                    }
+                    if s.ctx.ongoing_input_session() != !model.is_empty() {
+                        fails.push(json!({"clause": "C06 session flag == composition non-empty", "history": s.history(), "observed": s.ctx.ongoing_input_session()}));
+                        break;
+                    }
+                }
+                if h.chars().count() == bound { nt += 1; }
+            });
+        }
+        // C14: syllables in typewriter order (option on) vs Unicode order (option off)
+        let cons = ["t", "u", "twi", "tr"]; // ক র ক্ত ক + ro-fola
+        let signs = [("e", "e"), ("d", "d"), ("f", "f"), ("dp", "m"), ("dg", "g")]; // (typewriter tail handled below)
+        for setting in 0..8u8 {
+            let (vowel, chandra, trad) = (setting & 1 != 0, setting & 2 != 0, setting & 4 != 0);
+            for c1 in cons { for c2 in cons { for (s1, _) in signs { for chandra_end in [false, true] {
+                cases += 1;
+                let on = fixed_cfg(json!({"fixed_vowel": vowel, "fixed_chandra": chandra, "fixed_kar": trad, "fixed_kar_order": true}));
+                let off = fixed_cfg(json!({"fixed_vowel": vowel, "fixed_chandra": chandra, "fixed_kar": trad}));
+                // syllable 1: plain consonant cluster c1 with sign া ; syllable 2: cluster c2 with left-standing / two-part sign
+                let lead: String = s1.chars().take(1).collect();
+                let tail: String = s1.chars().skip(1).collect();
+                let tw = format!("{}p{}{}{}{}", c1, lead, c2, tail, if chandra_end { "o" } else { "" });
+                let uni_sign = match s1 { "dp" => "m".to_string(), "dg" => "g".to_string(), x => x.to_string() };
+                let un = format!("{}p{}{}{}", c1, c2, uni_sign, if chandra_end { "o" } else { "" });
+                let mut a = Sess::new(on);
+                let mut b = Sess::new(off);
+                let ta = a.typ(&tw).map(|s| s.get_lonely_suggestion().to_string()).unwrap_or_default();
+                let tb = b.typ(&un).map(|s| s.get_lonely_suggestion().to_string()).unwrap_or_default();
+                nt += 1;
+                if ta != tb {
+                    fails.push(json!({"clause": "C14 typewriter-order typing == Unicode-order typing", "history": a.history(), "unicode_order_history": b.history(), "observed": ta, "expected": tb}));
+                }
+            }}}}
+        }
+        let mut o2 = o;
+        o2.cases = cases;
+        o2.nontrivial = nt;
+        for f in fails { o2.fail(f); }
+        o2.sample(json!({"history": "t w e", "model": c12(&c12("ক", "্", false, false, false), "ি", false, false, false)}));
+        o2.done()
     }
 }
